@@ -7,8 +7,8 @@
        typecheck code st = Some (Typed st') -> stack_typed inputs st -> py_eval env fuel code (mkst [] inputs) = PDone stf ->
        Forall2 (fun v t => rt_type v = t) (view stf) st'          (and hence the storage returned by run_code).
    PROVED below ([_partial]): the statement for every instruction of Michelson/Instr.v (sets and maps with UPDATE, GET_AND_UPDATE,
-   MAP, literals included; see C01.v) and for programs accepted by [typecheck_nr] (every MAP body returns the element/value
-   type it received; APPLY does not capture sets/maps).
+   MAP, literals included; see C01.v) and for programs accepted by [typecheck_nr] (= the typing rules plus: every MAP body
+   returns the element/value type it received).
    REFUTED for [typecheck] itself: `PUSH (list nat) {} ; MAP { INT }` leaves a `list nat` where the typing rules say
    `list int` (known finding empty-map-retype, control.py MapInstruction: `res = src  # TODO`). *)
 From Coq Require Import List ZArith Bool Arith.
